@@ -243,8 +243,18 @@ func (g *c07gen) program(depth int, allowLoops bool) []byte {
 			}
 		case x < 97: // expansion / verify / fail
 			push([]byte{[]byte{0x50, 0x69, 0x6a, 0x61, 0xb0}[r.Intn(5)]})
-		default: // malformed tail
-			push(randBytes(1 + r.Intn(5)))
+		default: // malformed tail: random bytes, or an instruction cut off by the end of the program
+			switch r.Intn(4) {
+			case 0:
+				push(append([]byte{0x63}, randBytes(r.Intn(4))...))
+			case 1:
+				push(append([]byte{0x51, 0x64}, randBytes(r.Intn(4))...))
+			case 2:
+				n := 2 + r.Intn(5)
+				push(append([]byte{[]byte{0x4c, byte(n)}[r.Intn(2)], byte(n)}, randBytes(n-1-r.Intn(2))...))
+			default:
+				push(randBytes(1 + r.Intn(5)))
+			}
 		}
 	}
 	if depth == 0 && r.Intn(2) == 0 {
